@@ -88,15 +88,14 @@ func ToURL(ma multiaddr.Multiaddr) (*url.URL, error) {
 	}
 
 	path := ""
-	pb, ok := pm[multiaddr.P_HTTP_PATH]
-	if !ok {
-		pb, ok = pm[oldProtoHTTPath.Code]
-	}
-	if ok {
+	if pb, ok := pm[multiaddr.P_HTTP_PATH]; ok {
+		// The http-path transcoder renders its value with url.QueryEscape.
+		path, err = url.QueryUnescape(pb)
+	} else if pb, ok = pm[oldProtoHTTPath.Code]; ok {
 		path, err = url.PathUnescape(pb)
-		if err != nil {
-			path = ""
-		}
+	}
+	if err != nil {
+		path = ""
 	}
 
 	out := url.URL{
@@ -110,6 +109,9 @@ func ToURL(ma multiaddr.Multiaddr) (*url.URL, error) {
 // FromURL takes a URL and converts it into a multiaddr.
 //
 // converts scheme://host:port/path -> /ip/host/tcp/port/scheme/urlescape{path}
+//
+// The path is escaped with url.QueryEscape because that is what the http-path
+// transcoder of go-multiaddr un-escapes with.
 func FromURL(u *url.URL) (multiaddr.Multiaddr, error) {
 	h := u.Hostname()
 	var addr *multiaddr.Multiaddr
@@ -145,7 +147,7 @@ func FromURL(u *url.URL) (multiaddr.Multiaddr, error) {
 
 	joint := multiaddr.Join(*addr, http)
 	if u.Path != "" {
-		httppath, err := multiaddr.NewComponent(multiaddr.ProtocolWithCode(multiaddr.P_HTTP_PATH).Name, url.PathEscape(u.Path))
+		httppath, err := multiaddr.NewComponent(multiaddr.ProtocolWithCode(multiaddr.P_HTTP_PATH).Name, url.QueryEscape(u.Path))
 		if err != nil {
 			return nil, err
 		}
